@@ -29,8 +29,8 @@
 (* is wrong); it never is a verdict by itself.  The rest of a drifted run is skipped.            *)
 EXTENDS Promise, TraceLib
 
-VARIABLES l, drift, live
-tv == <<l, drift, live>>
+VARIABLES l, drift, nd, live    \* position, recorded drifts (bounded list), number of drifts, run still being followed
+tv == <<l, drift, nd, live>>
 
 XReset ==
     /\ pres' = ScenPres(Proms0) /\ pavail' = ScenAvail(Proms0) /\ curposs' = {Cur0} /\ late' = {}
@@ -47,7 +47,7 @@ XReset ==
     /\ ctxc' = [p \in Procs |-> FALSE]
     /\ chf' = [p \in Procs |-> ""]
 
-TInit == Init /\ l = 1 /\ drift = <<>> /\ live = TRUE
+TInit == Init /\ l = 1 /\ drift = <<>> /\ nd = 0 /\ live = TRUE
 
 \* "call:c2" -> "call", 2
 Kind(lbl) == IF Len(lbl) > 5 /\ SubSeq(lbl, 1, 5) = "call:" THEN "call"
@@ -120,11 +120,14 @@ AwRet(p, pr) ==
     \/ (pc[p] = "isel" /\ FixF9 /\ HasCh(p) /\ pr = ChRet(p, TRUE) /\ IWakeCh(p))
 
 -----------------------------------------------------------------------------
-Fin == UNCHANGED <<vars, drift, live>> /\ l' = l + 1
-Adv == UNCHANGED <<drift, live>> /\ l' = l + 1
+Fin == UNCHANGED <<vars, drift, nd, live>> /\ l' = l + 1
+Adv == UNCHANGED <<drift, nd, live>> /\ l' = l + 1
 
+\* every drift is counted; only the first MaxRecords are kept (the list is part of every later state)
+MaxRecords == 50
 Drift(why) ==
-    /\ drift' = Append(drift, [run |-> Trace[l].run, seq |-> Trace[l].seq, why |-> why])
+    /\ drift' = IF Len(drift) < MaxRecords THEN Append(drift, [run |-> Trace[l].run, seq |-> Trace[l].seq, why |-> why]) ELSE drift
+    /\ nd' = nd + 1
     /\ live' = FALSE
     /\ l' = l + 1
     /\ UNCHANGED vars
@@ -139,8 +142,8 @@ CallOK(e) ==
 TStep ==
     /\ l <= Len(Trace)
     /\ LET e == Trace[l] IN
-       CASE e.ev = "reset" -> XReset /\ l' = l + 1 /\ live' = TRUE /\ UNCHANGED drift
-         [] ~live -> UNCHANGED <<vars, drift, live>> /\ l' = l + 1
+       CASE e.ev = "reset" -> XReset /\ l' = l + 1 /\ live' = TRUE /\ UNCHANGED <<drift, nd>>
+         [] ~live -> UNCHANGED <<vars, drift, nd, live>> /\ l' = l + 1
          [] e.ev = "init" ->
               IF e.cur = Cur0 /\ e.proms = Proms0 THEN Fin ELSE Drift("the scenario of the run is not the scenario of the spec")
          [] e.ev = "step" ->
@@ -171,14 +174,14 @@ TStep ==
          [] e.ev = "quiet" ->
               IF LibQuiet /\ BlockedIds = SeqToSet(e.xblk) THEN Fin ELSE Drift("quiescent observation differs")
          [] e.ev = "panic" -> Drift("panic out of the library")
-         [] e.ev = "teardown" -> UNCHANGED <<vars, drift>> /\ live' = FALSE /\ l' = l + 1
+         [] e.ev = "teardown" -> UNCHANGED <<vars, drift, nd>> /\ live' = FALSE /\ l' = l + 1
          [] OTHER -> Fin
 
 TFinish ==
     /\ l = Len(Trace) + 1
-    /\ JsonSerialize(IOEnv.VERDICT_FILE, [drift |-> drift, consumed |-> Len(Trace), total |-> Len(Trace)])
+    /\ JsonSerialize(IOEnv.VERDICT_FILE, [drift |-> drift, ndrift |-> nd, consumed |-> Len(Trace), total |-> Len(Trace)])
     /\ l' = l + 1
-    /\ UNCHANGED <<vars, drift, live>>
+    /\ UNCHANGED <<vars, drift, nd, live>>
 
 TNext == TStep \/ TFinish
 =============================================================================
